@@ -54,7 +54,7 @@ def r1_signs(ctx):
             inner = tree[2] if neg else tree
             ok = neg and inner in own[which]
             other = "alpha" if which == "beta" else "beta"
-            if neg and not ok and inner not in own[other] and inner[0] == "local":
+            if neg and not ok and inner not in own[other] and inner[0] not in ("param", "c"):
                 # a negated variable that is neither bound as far as this rule can see (assigned on several paths,
                 # computed by a helper): no verdict
                 ctx.lost(rid, "%s: the %s is the negation of a variable this rule cannot identify (%s)" % (name, label, show(inner)))
@@ -416,6 +416,10 @@ def _atoms(t, depth=0):
             for a in t[2]:
                 out |= _atoms(a, depth + 1)
             return out
+        if short.split("::")[0] in ("PartialOrd", "Ord") and short.split("::")[-1] in ("gt", "lt", "ge", "le", "cmp", "partial_cmp"):
+            short = "PartialOrd::compare"       # a > b is b < a
+        elif short.split("::")[0] in ("PartialEq",) and short.split("::")[-1] in ("eq", "ne"):
+            short = "PartialEq::compare"
         out.add("call:" + short)
         return out
     if k == "agg" and t[1] == "closure":
@@ -646,13 +650,25 @@ def r4_control_inventory(ctx):
         out = set()
         for grp in re.findall(r"\[([^\]]*)\]", key.split("|if ", 1)[1] if "|if " in key else ""):
             out |= {a for a in grp.split(",") if a}
-        return out
+        # the window variable initialised from parameter N and narrowed by max / min is "parameter N" wherever it
+        # travels (a mutable local, a field of a helper's result)
+        out = {("arg" + a[7:-1]) if a.startswith("var(arg") else a for a in out}
+        return out - {"call:cmp::max", "call:cmp::min"}
     allowed = {}
     for k in reviewed:
         allowed.setdefault(category(k), set()).update(key_atoms(k))
     for cat, atoms_ in table("search_exits.json").get("_vocabulary", {}).items():
-        allowed.setdefault(tuple(cat.split("|")), set()).update(atoms_)
-    STRUCTURAL = lambda a: a in ("cmp", "discr", "local") or a.startswith("op:") or a.startswith("const:") or a.startswith("agg:")
+        allowed.setdefault(tuple(cat.split("|")), set()).update(("arg" + a[7:-1]) if a.startswith("var(arg") else a for a in atoms_)
+    import json as _json, os as _os
+    from ..core import VERIF as _V
+    try:
+        _known_fields = set(_json.load(open(_os.path.join(_V, "tables", "known_functions.json"))).get("fields", []))
+    except (OSError, ValueError):
+        _known_fields = None
+    # a field of a type that does not exist on the reviewed tree (a helper's result struct / enum) is plumbing: what
+    # it carries was computed from something else, which is described by its own atoms
+    STRUCTURAL = lambda a: a in ("cmp", "discr", "local") or a.startswith("op:") or a.startswith("const:") or a.startswith("agg:") or \
+        (a.startswith("field:") and _known_fields is not None and a[6:] not in _known_fields)
     for name in ("search_negamax", "search_quiescence"):
         f = ctx.fn(rid, SEARCH + name)
         items = search_control_inventory(f, name)
